@@ -223,8 +223,8 @@ class SymStr:
         out = []
         for j in range(m):
             a = self.c[j] if j < self.m else z3.BitVecVal(0, BW)
-            out.append(z3.If(j < self.n, a, o.at(j - self.n)))
-        return SymStr(out, self.n + o.n)
+            out.append(z3.simplify(z3.If(j < self.n, a, o.at(j - self.n))))
+        return SymStr(out, z3.simplify(self.n + o.n))
 
     def __radd__(self, o):
         return SymStr.lift(o) + self
@@ -359,7 +359,10 @@ class SymPattern:
                     for (gg, j, cc) in self._seq(s, items, 0, pos, False):
                         if j == pos:
                             continue
-                        more += rep(k + 1, j, z3.And(guard, gg), {**caps, **cc})
+                        g2 = z3.simplify(z3.And(guard, gg))
+                        if z3.is_false(g2):
+                            continue                     # pruned: cannot match here (concrete characters decide most guards)
+                        more += rep(k + 1, j, g2, {**caps, **cc})
                 return more + stop if greedy else stop + more
             return rep(0, i, z3.BoolVal(True), {})
         if op is K.AT:
@@ -414,8 +417,14 @@ class SymPattern:
         out = []
         op, av = items[idx]
         for (g, j, caps) in self._item(s, op, av, i):
+            g = z3.simplify(g)
+            if z3.is_false(g):
+                continue
             for (g2, j2, caps2) in self._seq(s, items, idx + 1, j, top):
-                out.append((z3.And(g, g2), j2, {**caps, **caps2}))
+                gg = z3.simplify(z3.And(g, g2))
+                if z3.is_false(gg):
+                    continue
+                out.append((gg, j2, {**caps, **caps2}))
         return out
 
     # -- API
